@@ -847,6 +847,10 @@ macro_rules! ubig_float_conversions {
                 if exp >= 0 {
                     result <<= exp as usize;
                 } else {
+                    // a non-zero fractional part cannot be represented
+                    if result.trailing_zeros().map_or(false, |z| z < (-exp) as usize) {
+                        return Err(ConversionError::LossOfPrecision);
+                    }
                     result >>= (-exp) as usize;
                 }
                 Ok(result)
@@ -883,6 +887,10 @@ macro_rules! ibig_float_conversions {
                 if exp >= 0 {
                     result <<= exp as usize;
                 } else {
+                    // a non-zero fractional part cannot be represented
+                    if result.trailing_zeros().map_or(false, |z| z < (-exp) as usize) {
+                        return Err(ConversionError::LossOfPrecision);
+                    }
                     result >>= (-exp) as usize;
                 }
                 Ok(result)
